@@ -113,6 +113,19 @@ func c12Schedules(rng *Rng, n int) [][]int {
 	return [][]int{nil, ones, halves, rnd, thousand, {3, 1, 1, 90, 2, 2, 5000}}
 }
 
+// ChunkedPut: PUT with STREAMING-AWS4-HMAC-SHA256-PAYLOAD framing, the payload cut into chunks of the
+// given sizes, the transport delivering it by the given read schedule
+func (s *Sess) ChunkedPut(b, key string, payload []byte, sizes []int, sched []int, eofWith bool, declared int) Resp {
+	stream := encodeChunks(splitChunks(payload, sizes))
+	fr := &fragReader{data: append([]byte{}, stream...), sched: append([]int{}, sched...), eofWith: eofWith}
+	r := do(s.h, Req{Method: "PUT", Path: "/" + b + "/" + key, Reader: fr, Header: [][2]string{
+		{"Content-Length", strconv.Itoa(len(stream))},
+		{"X-Amz-Content-Sha256", "STREAMING-AWS4-HMAC-SHA256-PAYLOAD"},
+		{"X-Amz-Decoded-Content-Length", strconv.Itoa(declared)}}})
+	s.emitOp("cput", []string{hs(b), hs(key), hx(stream), schedField(sched), boolField(eofWith), strconv.Itoa(declared), hx(payload)}, obsT{r: r})
+	return r
+}
+
 func runC12(tier string, seed uint64) {
 	rng := NewRng(seed)
 	lens := []int{0, 1, 2, 15, 16, 17, 100, 600, 4095, 4096, 4097}
@@ -196,13 +209,7 @@ func runC12(tier string, seed uint64) {
 			s.MkBucket(b)
 		}
 		put := func(key string, payload []byte, sizes []int, sched []int, eofWith bool, declared int) {
-			stream := encodeChunks(splitChunks(payload, sizes))
-			fr := &fragReader{data: append([]byte{}, stream...), sched: append([]int{}, sched...), eofWith: eofWith}
-			r := do(s.h, Req{Method: "PUT", Path: "/" + b + "/" + key, Reader: fr, Header: [][2]string{
-				{"Content-Length", strconv.Itoa(len(stream))},
-				{"X-Amz-Content-Sha256", "STREAMING-AWS4-HMAC-SHA256-PAYLOAD"},
-				{"X-Amz-Decoded-Content-Length", strconv.Itoa(declared)}}})
-			s.emitOp("cput", []string{hs(b), hs(key), hx(stream), schedField(sched), boolField(eofWith), strconv.Itoa(declared), hx(payload)}, obsT{r: r})
+			s.ChunkedPut(b, key, payload, sizes, sched, eofWith, declared)
 		}
 		s.Put(b, "obj", []byte("previous content"), nil)
 		for _, n := range []int{0, 1, 17, 600, 4097, 65539} {
